@@ -95,6 +95,60 @@ func ruleMergeOrder(c *eng.Ctx) {
 				order = "newest-first"
 			}
 		}
+		// a reversing copy after the loop (dst[n-1-i] = acc[i]) or slices.Reverse flips the order
+		reversed := false
+		eng.Instrs(fn, false, func(in ssa.Instruction) {
+			if call, ok := in.(ssa.CallInstruction); ok && strings.HasSuffix(eng.CalleeName(call), "slices.Reverse") {
+				reversed = true
+			}
+			st, ok := in.(*ssa.Store)
+			if !ok {
+				return
+			}
+			dst, ok := st.Addr.(*ssa.IndexAddr)
+			if !ok {
+				return
+			}
+			ld, ok := st.Val.(*ssa.UnOp)
+			if !ok || ld.Op != token.MUL {
+				return
+			}
+			src, ok := ld.X.(*ssa.IndexAddr)
+			if !ok {
+				return
+			}
+			leaf := func(v ssa.Value) (*eng.Poly, bool) {
+				if ph, ok := eng.Induction(v); ok && ph != nil {
+					if v == ssa.Value(ph) {
+						return eng.PSym("i"), true
+					}
+					return eng.PSym("i").Add(eng.PConst(1)), true
+				}
+				if call, ok := v.(*ssa.Call); ok {
+					if bi, ok := call.Call.Value.(*ssa.Builtin); ok && bi.Name() == "len" {
+						return eng.PSym("n"), true
+					}
+				}
+				return nil, false
+			}
+			pd, ok1 := eng.IntPoly(dst.Index, leaf)
+			ps, ok2 := eng.IntPoly(src.Index, leaf)
+			if ok1 && ok2 {
+				// dst index + src index == <length> - 1
+				sum := pd.Add(ps).Add(eng.PConst(1))
+				if syms := sum.Symbols(); len(syms) == 1 && (syms[0] == "n" || strings.HasPrefix(syms[0], "len(")) && sum.Equal(eng.PSym(syms[0])) {
+					reversed = true
+				}
+			}
+		})
+		if reversed {
+			switch order {
+			case "oldest-first":
+				order = "newest-first"
+			case "newest-first":
+				order = "oldest-first"
+			}
+		}
 		if order == "" {
 			c.Undec(R, "core.(*XRefParser).ParseAllXRefs#order", fn.Pos(), "cannot classify how /Prev tables are accumulated (neither prepend nor append of the previous table onto the running list)")
 		} else {
